@@ -1,4 +1,5 @@
 import AptMirror.Lemmas.Script
+import AptMirror.Lemmas.Clean
 /-!
 # C04 — cleaning removes exactly the unneeded files, and does so safely
 
@@ -17,9 +18,12 @@ quotes, blanks and newlines — everything the script can contain once names are
 
 Proved here, for every file name (any characters: quotes, blanks, `$`, backslashes, newlines) and any
 number of files and folders: the shell reads the generated script as exactly the intended `rm` commands
-(`C04_script_equiv`), hence script ≡ autoclean.  The agreement of the recursive scan with `specSurvives` is
-**not** proved (nested-inductive mutual induction, DESIGN §9): it is checked by the correspondence harness
-(real PathCleaner vs model vs spec on random and exhaustively enumerated small trees) — stated as partial.
+(`C04_script_equiv`), hence script ≡ autoclean.  The agreement of the recursive scan with `specSurvives` — the unlink
+queue is exactly the set of regular files that are neither kept nor below a kept path, the rmdir queue is exactly the set
+of non-root directories that are neither kept, nor below a kept path, nor contain a kept path or a symbolic link — is
+proved for every tree with distinct sibling names, every keep set and every nesting depth (`C04_files_exact`,
+`C04_folders_exact`, `C04_symlink_never_queued`), by mutual induction over the tree.  Not proved: that the rmdir queue's
+order (post-order) never meets a non-empty directory (`execQueues ≠ none`); the harness executes the queues.
 -/
 namespace AptMirror
 open Str Script
@@ -106,6 +110,107 @@ theorem C04_kept_not_queued (keep : List Path) (isRoot : Bool) (rel : Path) (n :
 theorem C04_symlink_kept (keep : List Path) (isRoot : Bool) (rel : Path) :
     Clean.scanNode keep isRoot rel .symlink = { Clean.Scan.empty with needed := true } := by
   simp [Clean.scanNode]
+
+namespace Clean
+theorem contains_false_iff (l : List Path) (p : Path) : l.contains p = false ↔ p ∉ l := by
+  rw [← Bool.not_eq_true, List.contains_iff_mem]
+
+theorem spec_file_false (keep : List Path) (fs : List (Path × Kind)) (p : Path) :
+    specSurvives keep fs (p, Kind.file) = false ↔ (p ∉ keep ∧ ∀ k ∈ keep, properPrefix k p = false) := by
+  simp only [specSurvives, Bool.or_eq_false_iff, contains_false_iff, List.any_eq_false, Bool.not_eq_true]
+
+theorem spec_dir_false (keep : List Path) (fs : List (Path × Kind)) (d : Path) :
+    specSurvives keep fs (d, Kind.dir) = false ↔
+      (d ≠ [] ∧ d ∉ keep ∧ (∀ k ∈ keep, properPrefix k d = false) ∧
+       ∀ x ∈ fs, ¬ (properPrefix d x.1 = true ∧ (x.2 = Kind.symlink ∨ x.1 ∈ keep))) := by
+  simp only [specSurvives, Bool.or_eq_false_iff, contains_false_iff, List.any_eq_false, Bool.not_eq_true,
+    decide_eq_false_iff_not, Bool.and_eq_true, Bool.or_eq_true, decide_eq_true_eq, List.contains_iff_mem, ne_eq]
+  constructor
+  · rintro ⟨⟨⟨h1, h2⟩, h3⟩, h4⟩
+    exact ⟨h1, h2, h3, fun x hx hc => h4 x hx hc⟩
+  · rintro ⟨h1, h2, h3, h4⟩
+    exact ⟨⟨⟨h1, h2⟩, h3⟩, fun x hx hc => h4 x hx hc⟩
+
+theorem prefix_cases {k p : Path} (h : isPrefix k p = true) : k = p ∨ properPrefix k p = true := by
+  obtain ⟨r, rfl⟩ := (isPrefix_iff _ _).mp h
+  cases r with
+  | nil => left; simp
+  | cons x r => right; exact (properPrefix_iff _ _).mpr ⟨x, r, rfl⟩
+
+theorem proper_isPrefix {k p : Path} (h : properPrefix k p = true) : isPrefix k p = true := by
+  obtain ⟨x, r, rfl⟩ := (properPrefix_iff _ _).mp h
+  exact isPrefix_append_self _ _
+end Clean
+
+open Clean in
+/-- **C04 (exactly the unneeded files).** For every tree, keep set and path: the scan queues `p` for unlinking iff `p` is a
+    regular file of the tree that the specification does not let survive (not kept, not below a kept path). -/
+theorem C04_files_exact (keep : List Path) (root : Node) (p : Path) :
+    p ∈ (scan keep root).filesQ ↔
+      ((p, Kind.file) ∈ flattenNode [] root ∧ specSurvives keep (flattenNode [] root) (p, Kind.file) = false) := by
+  unfold scan
+  rw [filesQ_node keep true [] root p, spec_file_false]
+  apply and_congr_right
+  intro _
+  constructor
+  · intro h
+    refine ⟨fun hm => h p hm ⟨rfl, isPrefix_refl p⟩, fun k hk => ?_⟩
+    cases hpp : properPrefix k p with
+    | false => rfl
+    | true => exact absurd ⟨rfl, proper_isPrefix hpp⟩ (h k hk)
+  · rintro ⟨h1, h2⟩ k hk ⟨_, hkp⟩
+    rcases prefix_cases hkp with rfl | hpp
+    · exact h1 hk
+    · rw [h2 k hk] at hpp; cases hpp
+
+open Clean in
+/-- **C04 (exactly the directories left without kept content).** In a tree with distinct sibling names the scan queues `d`
+    for removal iff `d` is a directory of the tree that the specification does not let survive: not the root, not kept,
+    not below a kept path, and containing neither a kept path nor a symbolic link. -/
+theorem C04_folders_exact (keep : List Path) (root : Node) (hwf : wfNode root) (d : Path) :
+    d ∈ (scan keep root).foldersQ ↔
+      ((d, Kind.dir) ∈ flattenNode [] root ∧ specSurvives keep (flattenNode [] root) (d, Kind.dir) = false) := by
+  unfold scan
+  rw [foldersQ_node keep true [] root hwf d, spec_dir_false]
+  apply and_congr_right
+  intro hm
+  constructor
+  · rintro ⟨hroot, hkb, hpin⟩
+    refine ⟨hroot rfl, fun hk => hkb d hk ⟨rfl, isPrefix_refl d⟩, fun k hk => ?_, fun e he hc => ?_⟩
+    · cases hpp : properPrefix k d with
+      | false => rfl
+      | true => exact absurd ⟨rfl, proper_isPrefix hpp⟩ (hkb k hk)
+    · exact hpin ⟨e, he, proper_isPrefix hc.1, hc.2⟩
+  · rintro ⟨hroot, hnk, hunder, hcont⟩
+    refine ⟨fun _ => hroot, ?_, ?_⟩
+    · rintro k hk ⟨_, hkp⟩
+      rcases prefix_cases hkp with rfl | hpp
+      · exact hnk hk
+      · rw [hunder k hk] at hpp; cases hpp
+    · rintro ⟨e, he, hpe, hp⟩
+      rcases prefix_cases hpe with hde | hpp
+      · -- e sits at d itself: it is the directory entry (unique path), so it is no symlink, and d is not kept
+        have : e = (d, Kind.dir) := flattenNode_unique [] root hwf e he (d, Kind.dir) hm hde.symm
+        subst this
+        rcases hp with hp | hp
+        · cases hp
+        · exact hnk hp
+      · exact hcont e he ⟨hpp, hp⟩
+
+open Clean in
+/-- **C04 (symbolic links are never removed).** In a tree with distinct sibling names, a path that is a symbolic link is in
+    neither queue. -/
+theorem C04_symlink_never_queued (keep : List Path) (root : Node) (hwf : wfNode root) (p : Path)
+    (h : (p, Kind.symlink) ∈ flattenNode [] root) : p ∉ (scan keep root).filesQ ∧ p ∉ (scan keep root).foldersQ := by
+  constructor
+  · intro hq
+    have := ((C04_files_exact keep root p).mp hq).1
+    have := flattenNode_unique [] root hwf _ this _ h rfl
+    cases this
+  · intro hq
+    have := ((C04_folders_exact keep root hwf p).mp hq).1
+    have := flattenNode_unique [] root hwf _ this _ h rfl
+    cases this
 
 /-! ### non-vacuity: a concrete tree -/
 open Clean in
